@@ -60,6 +60,7 @@ enum Act {
   Count(usize),
   BlockOn(usize),
   Using(usize),
+  Repoll(usize),
   Connect(usize, usize),
   Disconnect(usize),
 }
@@ -233,6 +234,10 @@ fn parse_act(x: &Sx, c: &Counts) -> ActN {
     "using" => {
       need(2);
       Act::Using(parse_slot(&l[1]))
+    }
+    "repoll" => {
+      need(2);
+      Act::Repoll(parse_ref(&l[1], c.tovecs, "tovec"))
     }
     "connect" => {
       need(3);
@@ -485,15 +490,28 @@ impl std::task::Wake for Token {
   }
 }
 
+// the token the executor of each to_vec is currently parked on (real std mutex: not a scheduling point);
+// `(repoll TV)` wakes it from another thread, as a select/join-style combinator re-polling its children would
+static CURRENT_TOKEN: Mutex<Option<HashMap<usize, Arc<Token>>>> = Mutex::new(None);
+
+fn repoll(tv: usize) {
+  let t = CURRENT_TOKEN.lock().unwrap().as_ref().and_then(|m| m.get(&tv).cloned());
+  if let Some(t) = t {
+    std::task::Wake::wake(t);
+  }
+}
+
 fn block_on(cx: &Cx, tv: usize, source: &Observable<'static, V>) {
   let tvx = atom(tv);
-  let token = Arc::new(Token { flag: fsync::Mutex::new(false), cv: fsync::Condvar::new() });
-  let waker = std::task::Waker::from(token.clone());
-  let mut tcx = std::task::Context::from_waker(&waker);
   let fut = source.to_vec();
   let mut fut = std::pin::pin!(fut);
   let mut k = 0usize;
   let res = loop {
+    // every poll hands in a FRESH waker; only the latest one is waited on
+    let token = Arc::new(Token { flag: fsync::Mutex::new(false), cv: fsync::Condvar::new() });
+    CURRENT_TOKEN.lock().unwrap().get_or_insert_with(HashMap::new).insert(tv, token.clone());
+    let waker = std::task::Waker::from(token.clone());
+    let mut tcx = std::task::Context::from_waker(&waker);
     cx.rec.ev("poll", vec![tvx.clone(), atom(k)]);
     k += 1;
     if let std::task::Poll::Ready(r) = fut.as_mut().poll(&mut tcx) {
@@ -505,6 +523,9 @@ fn block_on(cx: &Cx, tv: usize, source: &Observable<'static, V>) {
     }
     *g = false;
   };
+  if let Some(m) = CURRENT_TOKEN.lock().unwrap().as_mut() {
+    m.remove(&tv);
+  }
   let r = match res {
     Ok(buf) => {
       let items: Vec<V> = buf.read().unwrap().clone();
@@ -630,6 +651,7 @@ fn exec(cx: &Cx, a: &ActN) {
       rec.ev("count", vec![atom(h), atom(n)]);
     }
     Act::BlockOn(tv) => block_on(cx, *tv, &o.tovecs[*tv]),
+    Act::Repoll(tv) => repoll(*tv),
     Act::Using(u) => {
       let s = o.slots.lock().unwrap().get(u).cloned();
       if let Some(s) = s {
@@ -655,6 +677,7 @@ fn exec(cx: &Cx, a: &ActN) {
 
 // ---------------------------------------------------------------- one run
 fn run_once(sc: &Arc<Scenario>, cfg: Config) -> (Outcome, RecData) {
+  *CURRENT_TOKEN.lock().unwrap() = None;
   let rec = Rec::default();
   let holder: Arc<Mutex<Option<Arc<Objects>>>> = Arc::new(Mutex::new(None));
   let (sc2, rec2, holder2) = (sc.clone(), rec.clone(), holder.clone());
